@@ -7,7 +7,8 @@ Property theorems only.  Model: `CppUModel/Model/ThreadSafe.lean` (from
 `MemoryLeakDetector.cpp`); vocabulary: `CppUModel/Spec/ThreadSafe.lean`; regenerated switch table:
 `CppUModel/Gen/ThreadSafeWiring.lean`.
 
-Carried here: the lock discipline (state machine), the wiring obligation over the regenerated
+Carried here: the lock discipline (the regenerated constructor / destructor / release / fail statement
+lists executed as a state machine over mutex and flag), the wiring obligation over the regenerated
 table, and schedule independence of the accounting for interleavings of whole wrappers, for any
 number of threads and operations.  NOT carried (runtime facts, observed by `h_c10` under
 ThreadSanitizer with forced pre-emption): absence of data races in the compiled code, pthread
@@ -63,68 +64,210 @@ theorem switch_on_locks_all :
     ∀ s ∈ [Ptrs.initial, defaultConfig, offConfig, threadSafeConfig.save], s.threadSafeOn.allLocked = true := by
   decide +kernel
 
-/-! ## lock discipline -/
+/-! ## lock discipline, over the REGENERATED statement lists (`Gen.ThreadSafe.code`)
 
-/-- A wrapper whose body reports no misuse leaves the lock free (and did get it). -/
-theorem lock_free_after_op_partial (op : DetOp) (d : Det) (h : isMisuse op d = false) :
-    LockFreeAfter op d := by
-  have hn : (body op d).2 = .normal := by
-    simp only [isMisuse, beq_eq_false_iff_ne, ne_eq] at h
-    cases hb : (body op d).2 with
-    | normal => rfl
-    | misuse => exact absurd hb h
-  refine ⟨{ lock := .free, det := (body op d).1 }, ?_, rfl⟩
-  simp [wrapper, acquire, runBody, finish, hn, release]
+`code.ctor` / `code.dtor` / `code.release` / `code.fail` are the constructor and destructor of
+`MemLeakScopedMutex`, `MemLeakScopedMutex::releaseBeforeFailing()` and
+`MemoryLeakWarningReporter::fail` as they are in the source at check time; `wrapper` executes them.
+Every theorem of this section is therefore re-checked against the current source on every run. -/
 
-/-- The state after such a wrapper is exactly the detector operation applied under the lock. -/
-theorem wrapper_normal (op : DetOp) (d : Det) (h : (body op d).2 = .normal) :
-    wrapper op { lock := .free, det := d } = some { lock := .free, det := (body op d).1 } := by
-  simp [wrapper, acquire, runBody, finish, h, release]
+/-- `static bool memLeakMutexIsHeld = false;` -/
+theorem flag_initially_clear : code.flagInit = false := by decide
 
-/-- A wrapper never runs its body while another holds the lock: it blocks. -/
-theorem wrapper_blocks_when_held (op : DetOp) (d : Det) :
-    wrapper op { lock := .held, det := d } = none := by
-  simp [wrapper, acquire]
+/-- the constructor, entered with nobody inside: takes the mutex, then sets the flag -/
+theorem ctor_takes_lock_and_sets_flag : exec code.ctor LF.idle = some LF.inside := by decide
 
-/-- A misuse report leaves by `longjmp`: the scoped lock's destructor is skipped. -/
-theorem lock_held_after_misuse (op : DetOp) (d : Det) (h : isMisuse op d = true) :
-    wrapper op { lock := .free, det := d } = some { lock := .held, det := (body op d).1 } := by
-  have hm : (body op d).2 = .misuse := by simpa [isMisuse] using h
-  simp [wrapper, acquire, runBody, finish, hm]
+/-- ... and blocks while the mutex is held (whatever the flag says) -/
+theorem ctor_blocks_while_held (f : Bool) : exec code.ctor { lock := .held, flag := f } = none := by
+  cases f <;> decide
 
-/-- ... so every later allocation or release in this mode blocks for ever. -/
-theorem next_operation_blocks_after_misuse (op next : DetOp) (d : Det) (h : isMisuse op d = true) :
-    (wrapper op { lock := .free, det := d }).bind (wrapper next) = none := by
-  rw [lock_held_after_misuse op d h]
-  simp [wrapper, acquire]
+/-- the destructor (normal exit): clears the flag, then gives the mutex back -/
+theorem dtor_clears_flag_and_unlocks : exec code.dtor LF.inside = some LF.idle := by decide
 
-/-- The property's full lock clause: after EVERY operation, a misuse report included, the lock
-    is free.  False for the code as it is (known finding `C10:misuse-report-while-locked`). -/
+/-- `MemoryLeakWarningReporter::fail` raised inside a wrapper: `releaseBeforeFailing` clears the flag and
+    gives the mutex back BEFORE `failWith` leaves by `longjmp` -/
+theorem fail_inside_wrapper_gives_lock_back : execFail code code.fail LF.inside = some LF.idle := by decide
+
+/-- `fail` raised OUTSIDE any wrapper (flag clear; default mode, or a direct detector call): the mutex
+    is not touched - not even when somebody else holds it -/
+theorem fail_outside_wrapper_keeps_lock (l : LockState) :
+    execFail code code.fail { lock := l, flag := false } = some { lock := l, flag := false } := by
+  cases l <;> decide
+
+/-- whichever way the scope is left, the mutex is free and the flag clear afterwards -/
+theorem leave_gives_lock_back (o : Outcome) : leave code o LF.inside = some LF.idle := by
+  cases o <;> decide
+
+/-- EVERY wrapper call that starts with nobody inside gets the lock, performs exactly the detector
+    operation, and leaves lock and flag as it found them - whether or not a misuse is reported. -/
+theorem wrapper_every_op (op : DetOp) (d : Det) :
+    wrapper op (Sys.idle d) = some (Sys.idle (body op d).1) := by
+  have h : exec Gen.ThreadSafe.code.ctor LF.idle = some LF.inside := ctor_takes_lock_and_sets_flag
+  simp only [wrapper, wrapperWith, Sys.idle, h, Option.bind_some]
+  rw [leave_gives_lock_back]
+  rfl
+
+/-- The property's lock clause, for every operation and every table: after the operation - a misuse
+    report included - the detector's lock is free. -/
+theorem lock_free_after_every_op (op : DetOp) (d : Det) : LockFreeAfter op d :=
+  ⟨_, wrapper_every_op op d, rfl⟩
+
+/-- The property's full lock clause (was refuted for the code before the repair b50078d). -/
 def C10_full : Prop := ∀ (op : DetOp) (d : Det), LockFreeAfter op d
 
-/-- The refuting witness: `free(&local)` — releasing a block that was never allocated — with an
-    empty table.  The report fires inside the locked scope and the lock stays held. -/
-theorem C10_full_fails_known : ¬ C10_full := by
+theorem C10_full_holds : C10_full := lock_free_after_every_op
+
+/-- the misuse case spelled out: reported, table as the detector left it, lock free, flag clear -/
+theorem lock_free_after_misuse (op : DetOp) (d : Det) (_h : isMisuse op d = true) :
+    wrapper op (Sys.idle d) = some { lf := LF.idle, det := (body op d).1 } :=
+  wrapper_every_op op d
+
+/-- A wrapper never runs its body while another holds the lock: it blocks. -/
+theorem wrapper_blocks_when_held (op : DetOp) (f : Bool) (d : Det) :
+    wrapper op { lf := { lock := .held, flag := f }, det := d } = none := by
+  have h := ctor_blocks_while_held f
+  simp only [wrapper, wrapperWith, h, Option.bind_none, Option.map_none]
+
+/-- EVERY history of wrapper calls - any length, any mixture of correct operations and misuses of
+    any kind - never blocks, ends with the lock free and the flag clear, and computes exactly the
+    sequential detector run.  (No hypothesis: this replaces the misuse-free statement of the
+    unrepaired code.) -/
+theorem run_wrappers_every_history : ∀ (ops : List DetOp) (d : Det),
+    runSys ops (Sys.idle d) = some (Sys.idle (runDet ops d))
+  | [], _ => rfl
+  | op :: ops, d => by
+    have h : wrapperWith Gen.ThreadSafe.code op (Sys.idle d) = some (Sys.idle (body op d).1) := wrapper_every_op op d
+    simp only [runSys, runSysWith, runDet, h, Option.bind_some]
+    exact run_wrappers_every_history ops (body op d).1
+
+/-- in particular the operation that follows a misuse is served (it used to block for ever) -/
+theorem next_operation_served_after_misuse (op next : DetOp) (d : Det) (_h : isMisuse op d = true) :
+    (wrapper op (Sys.idle d)).bind (wrapper next) = some (Sys.idle (body next (body op d).1).1) := by
+  rw [wrapper_every_op, Option.bind_some, wrapper_every_op]
+
+/-! ### the flag invariant -/
+
+/-- the states one wrapper call goes through, statement by statement (normal exit) -/
+theorem wrapper_trace_normal :
+    wrapperTrace code .normal =
+      [LF.idle, { lock := .held, flag := false }, LF.inside, { lock := .held, flag := false }, LF.idle] := by decide
+
+/-- ... and when a misuse is reported: the flag is cleared BEFORE the mutex is given back -/
+theorem wrapper_trace_misuse :
+    wrapperTrace code .misuse =
+      [LF.idle, { lock := .held, flag := false }, LF.inside, { lock := .held, flag := false }, LF.idle] := by decide
+
+/-- `memLeakMutexIsHeld = true` only while the mutex is held by the wrapper in progress: at no
+    statement boundary of a wrapper call, on either exit, does the flag claim a lock that is not held
+    (so `releaseBeforeFailing` can never unlock a mutex that is free) -/
+theorem flag_implies_held_throughout (o : Outcome) :
+    (wrapperTrace code o).all FlagImpliesHeld = true := by
+  cases o <;> decide
+
+/-- where the body runs - the only place a misuse report can fire inside a wrapper - the flag is set
+    and the mutex held; between wrapper calls the flag is clear and the mutex free:
+    at those points `flag = true ↔ lock held` -/
+theorem flag_iff_held_at_body_and_between_calls :
+    bodyPoint code = some LF.inside ∧ FlagIffHeld LF.inside = true ∧ FlagIffHeld LF.idle = true ∧
+    ∀ o, (wrapperTrace code o).getLast? = some LF.idle := by
+  refine ⟨by decide, by decide, by decide, fun o => ?_⟩
+  cases o <;> decide
+
+/-- the only states in which flag and mutex disagree are the two windows INSIDE the constructor and
+    the destructor / release (mutex held, flag not yet set or already cleared) -/
+theorem flag_lags_never_leads (o : Outcome) :
+    (wrapperTrace code o).all (fun s => FlagIffHeld s || (s == { lock := .held, flag := false })) = true := by
+  cases o <;> decide
+
+/-! ### why each statement of the repair is needed (the old witness) -/
+
+/-- `free(&local)` with an empty table: a release of memory that was never allocated -/
+def oldWitness : DetOp := .free 7 .malloc false
+
+/-- The code as it was before the repair (`fail` does not call `releaseBeforeFailing`): the report
+    leaves by `longjmp`, the destructor is skipped, the lock stays held ... -/
+theorem without_release_call_lock_stays_held :
+    wrapperWith code.withoutReleaseCall oldWitness (Sys.idle []) = some { lf := LF.inside, det := [] } := by decide
+
+/-- ... and every later allocation or release in this mode blocks for ever. -/
+theorem without_release_call_next_operation_blocks (next : DetOp) :
+    (wrapperWith code.withoutReleaseCall oldWitness (Sys.idle [])).bind (wrapperWith code.withoutReleaseCall next) = none := by
+  rw [without_release_call_lock_stays_held, Option.bind_some]
+  have h : exec code.withoutReleaseCall.ctor LF.inside = none := by decide
+  simp only [wrapperWith, h, Option.bind_none, Option.map_none]
+
+/-- so the full lock clause is FALSE for that code (the former `C10_full_fails_known`) -/
+theorem C10_full_fails_without_release_call : ¬ ∀ op d, LockFreeAfterWith code.withoutReleaseCall op d := by
   intro h
-  obtain ⟨s', hs, hl⟩ := h (.free 7 .malloc false) []
-  have : wrapper (.free 7 .malloc false) { lock := .free, det := [] } = some { lock := .held, det := [] } := by
-    decide
+  obtain ⟨s', hs, hl⟩ := h oldWitness []
+  rw [without_release_call_lock_stays_held] at hs
+  cases hs
+  exact absurd hl (by decide)
+
+/-- The same if the constructor forgot to set the flag: `releaseBeforeFailing` then does nothing. -/
+theorem C10_full_fails_without_flag_set : ¬ ∀ op d, LockFreeAfterWith code.withoutFlagSet op d := by
+  intro h
+  obtain ⟨s', hs, hl⟩ := h oldWitness []
+  have : wrapperWith code.withoutFlagSet oldWitness (Sys.idle []) =
+      some { lf := { lock := .held, flag := false }, det := [] } := by decide
   rw [this] at hs
   cases hs
-  cases hl
+  exact absurd hl (by decide)
 
-/-- In the default (unlocked) mode the same misuse touches no lock at all. -/
-theorem plain_call_keeps_lock (op : DetOp) (s : Sys) : (plainCall op s).lock = s.lock := rfl
+/-- If the destructor forgot to clear the flag, a correct call would leave the flag set with the
+    mutex free, and a later report raised outside any wrapper would unlock a mutex it does not hold
+    (here: one that another thread has taken in the meantime). -/
+theorem stale_flag_without_flag_clear :
+    wrapperWith code.withoutFlagClear (.alloc 1 .new) (Sys.idle []) =
+        some { lf := { lock := .free, flag := true }, det := [(1, .new)] } ∧
+    execFail code.withoutFlagClear code.withoutFlagClear.fail { lock := .held, flag := true } = some LF.idle := by
+  decide
 
-/-- A misuse-free sequence of wrappers never blocks and ends with the lock free;
-    it computes exactly the sequential detector run. -/
-theorem run_wrappers_of_misuse_free : ∀ (ops : List DetOp) (d : Det), RunOk ops d = true →
-    runSys ops { lock := .free, det := d } = some { lock := .free, det := runDet ops d }
-  | [], d, _ => rfl
-  | op :: ops, d, h => by
-    simp only [RunOk, Bool.and_eq_true] at h
-    simp only [runSys, runDet, wrapper_normal op d (stepOk_normal h.1), Option.bind_some]
-    exact run_wrappers_of_misuse_free ops (body op d).1 h.2
+/-- the three variants really differ from the code (the filters removed something) -/
+theorem repair_ingredients_present :
+    code.withoutReleaseCall ≠ code ∧ code.withoutFlagSet ≠ code ∧ code.withoutFlagClear ≠ code := by decide
+
+/-! ### default (unlocked) mode -/
+
+/-- In the default mode (no wrapper in progress, flag clear) an operation - also one that reports a
+    misuse through the same `MemoryLeakWarningReporter::fail` - leaves lock and flag exactly as they
+    were, whatever state the lock is in. -/
+theorem plain_call_keeps_lock (op : DetOp) (s : Sys) (h : s.lf.flag = false) :
+    plainCall op s = some { lf := s.lf, det := (body op s.det).1 } := by
+  obtain ⟨⟨l, f⟩, d⟩ := s
+  simp only at h
+  subst h
+  simp only [plainCall, plainCallWith]
+  cases (body op d).2 with
+  | normal => rfl
+  | misuse =>
+    have := fail_outside_wrapper_keeps_lock l
+    simp only [this, Option.map_some, withDet]
+
+/-- ... in particular a misuse in default mode does not unlock (and does not block) -/
+theorem plain_misuse_does_not_unlock (op : DetOp) (d : Det) (l : LockState) (_h : isMisuse op d = true) :
+    (plainCall op { lf := { lock := l, flag := false }, det := d }).map (·.lf.lock) = some l := by
+  rw [plain_call_keeps_lock _ _ rfl]; rfl
+
+/-- switching: any history of locked calls, then any history of plain calls, then locked calls
+    again - misuses anywhere - never blocks and ends idle -/
+def runPlain : List DetOp → Sys → Option Sys
+  | [], s => some s
+  | op :: ops, s => (plainCall op s).bind (runPlain ops)
+
+theorem run_plain_every_history : ∀ (ops : List DetOp) (d : Det),
+    runPlain ops (Sys.idle d) = some (Sys.idle (runDet ops d))
+  | [], _ => rfl
+  | op :: ops, d => by
+    have h : plainCall op (Sys.idle d) = some (Sys.idle (body op d).1) := plain_call_keeps_lock op (Sys.idle d) rfl
+    simp only [runPlain, runDet, h, Option.bind_some]
+    exact run_plain_every_history ops (body op d).1
+
+theorem mode_switches_every_history (a b c : List DetOp) (d : Det) :
+    ((runSys a (Sys.idle d)).bind (runPlain b)).bind (runSys c) =
+      some (Sys.idle (runDet c (runDet b (runDet a d)))) := by
+  rw [run_wrappers_every_history, Option.bind_some, run_plain_every_history, Option.bind_some,
+    run_wrappers_every_history]
 
 /-! ## every release was outstanding -/
 
@@ -264,13 +407,12 @@ theorem owned_schedule_misuse_free (n : Nat) (sched : List Event) (h : Owned n s
     set after the threads finish is the union of what each thread still holds plus the blocks still
     in transit (none, if every hand-over was completed). -/
 theorem interleaving_outstanding (n : Nat) (sched : List Event) (h : Owned n sched Own.empty) :
-    runSys (detOps sched) { lock := .free, det := [] } =
-        some { lock := .free, det := runDet (detOps sched) [] } ∧
+    runSys (detOps sched) (Sys.idle []) = some (Sys.idle (runDet (detOps sched) [])) ∧
     (ids (runDet (detOps sched) [])).Nodup ∧
     (runDet (detOps sched) []).Perm
       (unionHeld n sched ++ (ownRun sched Own.empty).moving.map pr) := by
   obtain ⟨hok, hp, hn⟩ := owned_run n sched Own.empty [] h (tied_empty n)
-  refine ⟨run_wrappers_of_misuse_free _ _ hok, hn, ?_⟩
+  refine ⟨run_wrappers_every_history _ _, hn, ?_⟩
   rw [← allBlocks_ownRun]; exact hp
 
 /-! ### ... exactly as if the threads had run one after another -/
@@ -457,7 +599,7 @@ example : isMisuse (.free 5 .new false) [] = true := by decide                  
 example : isMisuse (.free 5 .malloc false) [(5, .new)] = true := by decide         -- allocator mismatch
 example : isMisuse (.realloc 5 6 true) [(5, .malloc)] = true := by decide          -- guard bytes overrun
 /-- the schedule in which the misuse happens first is NOT admissible (so it is outside
-    `interleaving_equiv_sequential`, and inside `C10_full_fails_known`) -/
+    `interleaving_equiv_sequential`; the lock clause `C10_full_holds` covers it all the same) -/
 example : ¬ Owned 1 [(0, .det (.free 7 .malloc false))] Own.empty := by decide
 
 end ThreadSafe
